@@ -14,8 +14,12 @@ def setup():
 
     run_all()
     with Lock(LEAN / ".lock"):
-        rc, out = sh(["lake", "build"], cwd=LEAN)
-    print(out[-3000:])
+        rc, out = sh(["lake", "build", "driver"], cwd=LEAN)
+        print(out[-2000:])
+        # the property modules are built (and their failures reported as proof obligations) by each check; building
+        # them here only warms the cache, so a module that no longer checks on a changed tree does not fail the setup
+        rc2, out2 = sh(["lake", "build", "SkopsModel"], cwd=LEAN)
+        print(out2[-1500:])
     return 0 if rc == 0 else 2
 
 
